@@ -5,17 +5,18 @@ import json, os, re, shutil, glob, sys
 V='/verif'
 needs=json.load(open(f'{V}/seeded/needs.json'))
 logdir=sys.argv[1] if len(sys.argv)>1 else '/dev/shm/seedlogs'
+OFF={'':0,'2':2,'3':4}
 confirm={}
 for f in sorted(glob.glob(f'{logdir}/confirm*.log')):
     for line in open(f):
-        m=re.match(r'CONFIRM /tmp/seed(2?)-(C\d+)/SEED/cand(\d) clean=(\w+) changed=(\w+) suite=(\w+)',line)
-        if m: confirm[f'{m.group(2)}-{int(m.group(3))+(2 if m.group(1) else 0)}']={'demo_on_unchanged_code':m.group(4),'demo_with_change':m.group(5),'pinned_suite_with_change':m.group(6)}
+        m=re.match(r'CONFIRM /tmp/seed([23]?)-(C\d+)/SEED/cand(\d) clean=(\w+) changed=(\w+) suite=(\w+)',line)
+        if m: confirm[f'{m.group(2)}-{int(m.group(3))+OFF[m.group(1)]}']={'demo_on_unchanged_code':m.group(4),'demo_with_change':m.group(5),'pinned_suite_with_change':m.group(6)}
 evals={}
 for f in sorted(glob.glob(f'{logdir}/eval*.log')):
     cur=None
     for line in open(f):
-        m=re.match(r'### /tmp/seed(2?)-(C\d+)/SEED/cand(\d)/patch.diff',line)
-        if m: cur=f'{m.group(2)}-{int(m.group(3))+(2 if m.group(1) else 0)}'; continue
+        m=re.match(r'### /tmp/seed([23]?)-(C\d+)/SEED/cand(\d)/patch.diff',line)
+        if m: cur=f'{m.group(2)}-{int(m.group(3))+OFF[m.group(1)]}'; continue
         m=re.match(r'SEED (C\d+) exit=(\d+) keys=(.*)',line)
         if m and cur:
             keys=m.group(3).split()
@@ -23,7 +24,7 @@ for f in sorted(glob.glob(f'{logdir}/eval*.log')):
 out={}
 for sid,nd in sorted(needs.items()):
     prop,k=sid.split('-')
-    src=f'/tmp/seed-{prop}/SEED/cand{k}' if int(k)<=2 else f'/tmp/seed2-{prop}/SEED/cand{int(k)-2}'
+    src=f'/tmp/seed-{prop}/SEED/cand{k}' if int(k)<=2 else (f'/tmp/seed2-{prop}/SEED/cand{int(k)-2}' if int(k)<=4 else f'/tmp/seed3-{prop}/SEED/cand{int(k)-4}')
     dst=f'{V}/seeded/{sid}'
     c=confirm.get(sid)
     if not c or c!={'demo_on_unchanged_code':'PASS','demo_with_change':'FAIL','pinned_suite_with_change':'PASS'}:
